@@ -189,7 +189,7 @@ class SimKernel:
 
     def run(self, sb, exe, argv, *, env=None, stdin=None, stdin_pipe=False, stdout_kind='file',
             faults=(), aslr=0, wall_ms=10000, steps=200000, alloc_mb=256, as_mb=0,
-            want_log=False, extra_fds=0, san=False, capture=True, cwd=None, untraced_stderr=None):
+            want_log=False, extra_fds=0, san=False, capture=True, cwd=None, untraced_stderr=None, deny_outside=True):
         """Run one plan.  argv includes argv[0].  stdin: relpath in sandbox or None."""
         if self.p is None or self.p.poll() is not None:
             self.start()
@@ -223,6 +223,9 @@ class SimKernel:
             untraced_stderr = '--verbose' in argv
         if untraced_stderr:
             lines.append('untraced_stderr 1')
+        if deny_outside:
+            # the simulated file system ends at the sandbox's own directory: a mutating call beyond it is refused (and recorded)
+            lines.append('deny_outside 1')
         lines.append('limit wall_ms %d' % wall_ms)
         lines.append('limit steps %d' % steps)
         lines.append('limit alloc_mb %d' % (0 if san else alloc_mb))
